@@ -27,7 +27,9 @@ func (m *c13Model) summary(el *c13ELoop) []string {
 			nm[p.H.key], nm[p.herr.key] = "<history>", "<history error>"
 		}
 		if p.srch != nil && p.srch.idiom != "" {
-			nm[p.srch.found(m.x).key] = "<selected entry>"
+			for _, f := range p.srch.found(m.x) {
+				nm[f.key] = "<selected entry>"
+			}
 		}
 		d := cell.actual
 		switch p.how {
